@@ -91,7 +91,7 @@ class FixedDecimals(Harness):
     entry = [NF + 'format_straight_numeric_value']
     classes = {}
     def __init__(self, tier):
-        self.mi, self.mf, self.mk = (3, 4, 3) if tier == 'quick' else (7, 6, 5)
+        self.mi, self.mf, self.mk = (4, 5, 4) if tier == 'quick' else (7, 9, 6)
         self.doc = 'format_straight_numeric_value on the shortest decimal text of a number: symbolic sign, integer digits and fraction digits, patterns 0 / 0.0 .. with and without thousands separators, against exact decimal rounding half away from zero'
         self.bounds = {'integer_digits': [1, self.mi], 'fraction_digits': [0, self.mf], 'pattern_decimals': [0, self.mk], 'thousands': [False, True], 'sign': ['+', '-']}
     def run(self, it, ctx, res):
@@ -132,7 +132,7 @@ class Percentage(Harness):
     name = 'percentage'; property_id = 'C19'
     entry = [PF + 'format_as_percentage', NF + 'round_decimal_text']
     def __init__(self, tier):
-        self.mi, self.mf, self.mk = (2, 5, 2) if tier == 'quick' else (4, 7, 4)
+        self.mi, self.mf, self.mk = (3, 6, 3) if tier == 'quick' else (5, 9, 5)
         self.doc = 'format_as_percentage on a number given by its shortest decimal text (f64::to_string trusted): 100 x value rounded half away from zero to the decimals of 0% / 0.0% / ..'
         self.bounds = {'integer_digits': [1, self.mi], 'fraction_digits': [0, self.mf], 'pattern_decimals': [0, self.mk], 'sign': ['+', '-']}
     def run(self, it, ctx, res):
